@@ -102,6 +102,14 @@ def gen_stream(ctx, k):
         if not payload:
             payload = rand_msg(rng, uid)[:60]
             uid += 1
+        if rng.random() < 0.15 and payload:
+            # a node repeats itself: the same message (same sequence number, same bytes) again - behind the first one in the same packet, or as a
+            # packet of its own right after this one. Each copy is a received message
+            first = model.split_messages(payload)[0]
+            if rng.random() < 0.5 and len(payload) + len(first) <= limit:
+                payload = first + payload
+            else:
+                parts.append((model.frame(first), None))
         fr = model.frame(payload)
         if rng.random() < 0.35:
             fr, kind = corrupt(rng, fr)
@@ -131,6 +139,9 @@ def gen_stream(ctx, k):
     for i in range(len(parts) - 2):
         fr, kind = parts[i]
         nx, kind2 = parts[i + 1]
+        if kind in ('flip', 'insert', 'drop', 'esc_break', 'overlong') and kind2 is None and fr[-1:] == b'\xfe' and nx[:1] == b'\xfe' and rng.random() < 0.3:
+            parts[i] = (fr[:-1], kind)                           # a damaged packet and the good one behind it share their delimiter
+            continue
         if kind is None and kind2 is None and fr[-1:] == b'\xfe' and nx[:1] == b'\xfe':
             r_ = rng.random()
             if r_ < 0.2:
